@@ -46,7 +46,7 @@ pub(crate) fn exec(var: Variable) -> Variable {
 }
 
 pub(crate) fn return_type(lhs: Type) -> Type {
-    let element_type = lhs.element_type().unwrap();
+    let element_type = lhs.element_type().unwrap_or(Type::Never);
     var_type!(() -> (bool, element_type))
 }
 
